@@ -416,12 +416,16 @@ fn maybe_create_scmp_reply(
         .try_classify()
         .context("can't classify SCION packet for SCMP response")?;
 
-    match classify {
-        ClassifiedPacketView::Scmp(scmp_view) if scmp_view.scmp().message().is_error() => {
-            // Don't reply to SCMP Error Messages
+    if let ClassifiedPacketView::Scmp(scmp_view) = classify {
+        // Don't reply to SCMP Error Messages. Message types below 128 are error messages even if
+        // the type is not assigned.
+        let is_error = match scmp_view.scmp().message() {
+            ScmpMessageView::Unknown(unknown) => unknown.message_type() < 128,
+            message => message.is_error(),
+        };
+        if is_error {
             return Ok(None);
         }
-        _ => {}
     }
 
     let packet_src = respond_to
